@@ -124,9 +124,9 @@ pub mod other_types {
     #[nutype(sanitize(with = |t: T| t.flip()), validate(predicate = |t: &T| *t != T::default()), derive(Debug, FromStr))]
     pub struct GV<T: Flip + Default + PartialEq>(T);
 
+    static CAT: [&'static str; 6] = ["", "7", "7 ", " 7", "ab", "é"];
     fn text() -> &'static str {
-        let cat: [&'static str; 6] = ["", "7", "7 ", " 7", "ab", "é"];
-        let i: usize = kani::any(); kani::assume(i < 6); cat[i]
+        let i: usize = kani::any(); kani::assume(i < 6); CAT[i]
     }
     fn oracle(t: &str) -> Result<P, PErr> {
         if is_symbolic() {
@@ -140,7 +140,13 @@ pub mod other_types {
     #[kani::unwind(8)]
     #[kani::stub(crate::support::is_symbolic, crate::support::is_symbolic_true)]
     pub fn c06_other_validated() {
-        init(); let t = text();
+        // under verification: one nondeterministic catalogue text; natively (replay): the whole catalogue, because which text the
+        // real one-byte parser accepts is not what the nondeterministic parser of the counterexample accepted
+        init(); let t0 = text();
+        if is_symbolic() { c06_other_validated_body(t0); } else { for t in CAT.iter() { unsafe { P_CALLS = 0; } c06_other_validated_body(t); } }
+    }
+    fn c06_other_validated_body(t: &'static str) {
+        
         let r = <NV as FromStr>::from_str(t);
         kani::cover!(r.is_ok()); kani::cover!(matches!(r, Err(NVParseError::Parse(_)))); kani::cover!(matches!(r, Err(NVParseError::Validate(_))));
         match oracle(t) {
@@ -155,7 +161,13 @@ pub mod other_types {
     #[kani::unwind(8)]
     #[kani::stub(crate::support::is_symbolic, crate::support::is_symbolic_true)]
     pub fn c06_other_plain() {
-        init(); let t = text();
+        // under verification: one nondeterministic catalogue text; natively (replay): the whole catalogue, because which text the
+        // real one-byte parser accepts is not what the nondeterministic parser of the counterexample accepted
+        init(); let t0 = text();
+        if is_symbolic() { c06_other_plain_body(t0); } else { for t in CAT.iter() { unsafe { P_CALLS = 0; } c06_other_plain_body(t); } }
+    }
+    fn c06_other_plain_body(t: &'static str) {
+        
         let r = <NN as FromStr>::from_str(t);
         kani::cover!(r.is_ok()); kani::cover!(r.is_err());
         match oracle(t) {
@@ -167,10 +179,16 @@ pub mod other_types {
     #[kani::unwind(8)]
     #[kani::stub(crate::support::is_symbolic, crate::support::is_symbolic_true)]
     pub fn c06_generic_validated() {
+        // under verification: one nondeterministic catalogue text; natively (replay): the whole catalogue, because which text the
+        // real one-byte parser accepts is not what the nondeterministic parser of the counterexample accepted
+        init(); let t0 = text();
+        if is_symbolic() { c06_generic_validated_body(t0); } else { for t in CAT.iter() { unsafe { P_CALLS = 0; } c06_generic_validated_body(t); } }
+    }
+    fn c06_generic_validated_body(t: &'static str) {
         // generic newtype instantiated at a harness type whose FromStr is the nondeterministic parser above
         #[derive(Debug, Clone, Copy, PartialEq, Default)] pub struct Q(i32);
         impl FromStr for Q { type Err = PErr; fn from_str(s: &str) -> Result<Q, PErr> { P::from_str(s).map(|p| Q(p.x)) } }
-        init(); let t = text();
+        
         let r = <G<Q> as FromStr>::from_str(t);
         kani::cover!(r.is_ok()); kani::cover!(matches!(r, Err(GParseError::Parse(_)))); kani::cover!(matches!(r, Err(GParseError::Validate(_))));
         match oracle(t) {
@@ -183,8 +201,14 @@ pub mod other_types {
     #[kani::unwind(8)]
     #[kani::stub(crate::support::is_symbolic, crate::support::is_symbolic_true)]
     pub fn c06_generic_sanitized() {
+        // under verification: one nondeterministic catalogue text; natively (replay): the whole catalogue, because which text the
+        // real one-byte parser accepts is not what the nondeterministic parser of the counterexample accepted
+        init(); let t0 = text();
+        if is_symbolic() { c06_generic_sanitized_body(t0); } else { for t in CAT.iter() { unsafe { P_CALLS = 0; } c06_generic_sanitized_body(t); } }
+    }
+    fn c06_generic_sanitized_body(t: &'static str) {
         // generic newtypes with a NON-identity sanitizer (xor with a symbolic K: applying it twice or not at all is visible)
-        init(); let t = text();
+        
         let r = <GS<Q2> as FromStr>::from_str(t);
         kani::cover!(r.is_ok()); kani::cover!(r.is_err());
         match oracle(t) {
